@@ -438,9 +438,77 @@ class Inliner:
             out += self._stmt(fi, st)
         return out
 
+    def _partials(self, fi, st: ast.stmt) -> List[ast.stmt]:
+        """`partial(helper, a, b)` with an unknown helper and plain-name arguments: analysed as a local function
+        `def helper__pN(<remaining parameters>): <helper body with a, b bound>` defined right before the statement."""
+        outer = self
+        pre: List[ast.stmt] = []
+
+        class T(ast.NodeTransformer):
+            def visit_FunctionDef(self, node):
+                return node
+
+            visit_AsyncFunctionDef = visit_ClassDef = visit_Lambda = visit_FunctionDef
+
+            def generic_visit(self, node):
+                for field, old in ast.iter_fields(node):
+                    if isinstance(old, list):
+                        if old and isinstance(old[0], ast.stmt):
+                            continue
+                        old[:] = [self.visit(v) if isinstance(v, ast.AST) else v for v in old]
+                    elif isinstance(old, ast.AST):
+                        setattr(node, field, self.visit(old))
+                return node
+
+            def visit_Call(self, node):
+                self.generic_visit(node)
+                fn = ast.unparse(node.func)
+                if fn not in ("partial", "functools.partial") or not node.args or node.keywords:
+                    return node
+                if not all(isinstance(a, ast.Name) for a in node.args[1:]):
+                    return node
+                probe = ast.Call(func=node.args[0], args=[], keywords=[])
+                r = outer.resolve(fi, probe)
+                if r is None:
+                    return node
+                helper, recv = r
+                if helper.qual == fi.qual:
+                    return node
+                hp = [a.arg for a in helper.node.args.args]
+                if recv is not None and _method_kind(helper.node) in ("method", "classmethod") and helper_in_class(helper.node):
+                    hp = hp[1:]
+                bound = node.args[1:]
+                if len(bound) > len(hp) or helper.node.args.kwonlyargs:
+                    return node
+                fake = ast.Call(func=node.args[0], args=list(bound) + [ast.Name(id=p_, ctx=ast.Load()) for p_ in hp[len(bound):]], keywords=[])
+                binds = _bind(helper.node, fake, recv, _method_kind(helper.node))
+                if binds is None:
+                    return node
+                outer._count += 1
+                tag = f"p{outer._count}"
+                rest = hp[len(bound):]
+                # the remaining parameters keep their names (they are parameters of the new local function)
+                binds = {k: v for k, v in binds.items() if k not in rest}
+                body, _r = instantiate(helper.node, binds, tag, raw=True)
+                name = f"{helper.name.strip('_')}__{tag}"
+                new = ast.FunctionDef(name=name, args=ast.arguments(posonlyargs=[], args=[ast.arg(arg=p_) for p_ in rest], vararg=None, kwonlyargs=[], kw_defaults=[], kwarg=None, defaults=[]), body=body or [ast.Pass()], decorator_list=[], returns=None, type_comment=None)
+                ast.copy_location(new, node)
+                ast.fix_missing_locations(new)
+                pre.append(new)
+                outer.inlined_count[helper.qual] = outer.inlined_count.get(helper.qual, 0) + 1
+                outer.log.append(f"{fi.qual}: partial({helper.qual}, ..) at L{getattr(node, 'lineno', '?')} analysed as a local function {name}")
+                return ast.copy_location(ast.Name(id=name, ctx=ast.Load()), node)
+
+        if isinstance(st, (ast.Assign, ast.AnnAssign, ast.AugAssign, ast.Expr, ast.Return, ast.If)):
+            T().generic_visit(st)
+        return pre
+
     def _stmt(self, fi, st: ast.stmt) -> List[ast.stmt]:
         if isinstance(st, (ast.FunctionDef, ast.AsyncFunctionDef, ast.ClassDef)):
             return [st]
+        parts_pre = self._partials(fi, st)
+        if parts_pre:
+            return parts_pre + self._stmt(fi, st)
         # compound statements: recurse into blocks
         for fld in ("body", "orelse", "finalbody"):
             b = getattr(st, fld, None)
